@@ -135,6 +135,39 @@ def eq [DecidableEq V] (h : K → Nat) (a b : HM K V) : Bool :=
     | none => false
     | some v => decide (kv.2 = v))
 
+/-! ## handles: several `HashMap` objects may refer to one table -/
+
+/-- A family of `HashMap` objects (slots) over a store of tables: `slots[j]` names the table object `j` refers to.
+`HashMap(const HashMap&)` / `operator=` make two slots name one table (`share`); an object that is assigned a new
+map (constructor, `clone()`, a set-algebra result) is bound to a fresh table (`rebind`); every other member acts on
+the table the slot names (`mutate`), and all slots naming it see the effect.  The reference count a table's
+operations see (`a[1]`) is the number of slots naming it. -/
+structure Fam (K V : Type) where
+  tabs : List (HM K V)
+  slots : List Nat
+
+/-- number of objects referring to table `t` -/
+def Fam.rcOf (f : Fam K V) (t : Nat) : Nat := (f.slots.filter (· == t)).length
+
+/-- the table object `j` refers to, as that object sees it -/
+def Fam.get (f : Fam K V) (j : Nat) : HM K V :=
+  let t := f.slots.getD j 0
+  { f.tabs.getD t (empty defaultBuckets) with rc := f.rcOf t }
+
+/-- write back the table of object `j` after a member function ran on it -/
+def Fam.store (f : Fam K V) (j : Nat) (m : HM K V) : Fam K V :=
+  { f with tabs := f.tabs.set (f.slots.getD j 0) m }
+
+/-- a member function `g` called on object `j` -/
+def Fam.mutate (f : Fam K V) (j : Nat) (g : HM K V → HM K V) : Fam K V := f.store j (g (f.get j))
+
+/-- `object j = object i` (handle copy: both now refer to the table of `i`) -/
+def Fam.share (f : Fam K V) (i j : Nat) : Fam K V := { f with slots := f.slots.set j (f.slots.getD i 0) }
+
+/-- `object j = <a newly built map m>` -/
+def Fam.rebind (f : Fam K V) (j : Nat) (m : HM K V) : Fam K V :=
+  { tabs := f.tabs ++ [{ m with rc := 1 }], slots := f.slots.set j f.tabs.length }
+
 /-! ## `Set<T>` = `HashMap<T,int>` with value 1 -/
 
 abbrev HSet (K : Type) := HM K Int
